@@ -185,7 +185,8 @@ ACPutBegin(c, id, att, now) ==
   /\ LET t == chan[c].t  cu == Cu(c, id) IN
      \/ /\ cu.loc = "none"                                  \* (a)
         /\ Has(copying, t) /\ copying[t].id = id /\ c \in copying[t].rem
-        /\ copying[t].def = 0                               \* C04: a deferred publish is deferred on EVERY channel
+        \* C04: a deferred publish is queued for immediate delivery only once its delay has run out (on EVERY channel)
+        /\ copying[t].def = 0 \/ (Has(minfo, <<t, id>>) /\ now >= minfo[<<t, id>>].pnow + minfo[<<t, id>>].def - 2)
         /\ att = 0
         /\ copying' = [copying EXCEPT ![t].rem = @ \ {c}]
         /\ cust' = cust @@ (<<c, id>> :> [NoCust EXCEPT !.loc = "Q", !.mark = FALSE, !.qnow = now])
@@ -338,9 +339,10 @@ ADefStart(c, id, pri, now, delay) ==
   /\ Tracked(c) =>
        LET cu == Cu(c, id) IN
        IF cu.loc = "L" THEN cu.via = "req" /\ delay = cu.d0 /\ pri >= cu.t0 + delay - 2
-       ELSE /\ Has(stash, <<c, id>>) /\ pri >= stash[<<c, id>>] + delay - 2
+       ELSE \* a deferred publish: never due before publication + the delay that was asked for (however the channel
+            \* arrives at that deadline: a full delay from its own copy, or what is left of it)
             /\ Has(minfo, <<chan[c].t, id>>)
-            /\ delay = minfo[<<chan[c].t, id>>].def
+            /\ pri >= minfo[<<chan[c].t, id>>].pnow + minfo[<<chan[c].t, id>>].def - 2
   /\ UNCHANGED vars
 
 ADefPush(c, id, pri) ==
